@@ -98,6 +98,10 @@ func (ip *Interp) registerHarnessAPI() {
 		ip.path.allocOn = false
 		return nil
 	})
+	h("verifAllocEndK", func(ip *Interp, fr *frame, args []Value) Value {
+		ip.path.allocOn = false
+		return nil
+	})
 	h("verifB2I", func(ip *Interp, fr *frame, args []Value) Value {
 		return ip.st.B2BV(args[0].(*Term), 64)
 	})
